@@ -44,6 +44,8 @@ type world struct {
 	removed    map[common.Address]bool
 	applies    map[uint64][]common.Address // apply id -> requested list
 	removes    map[uint64][]common.Address
+	nextApply  uint64 // request counters as the contract documents them: next id = number of successful requests so far
+	nextRemove uint64
 	openApply  []uint64
 	openRemove []uint64
 	approvals  map[string]map[int]bool // "a<id>" / "r<id>" -> validators that approved
@@ -150,7 +152,14 @@ func (w *world) governanceStep() bool {
 			tx := w.c.InvokeTx(utils.RelayerManagerContractAddress, relayer_manager.REGISTER_RELAYER, args, pk.Single(applicant))
 			txs = append(txs, tx)
 			meta = append(meta, func(ok bool, st [][]interface{}) {
-				if id, found := find(st, "putRelayerApply"); ok && found {
+				// the model owns the request ids: by the contract's counter semantics the k-th successful
+				// registerRelayer request is request k (ids are NOT taken from what the chain announces)
+				if ok {
+					id := w.nextApply
+					w.nextApply++
+					if got, found := find(st, "putRelayerApply"); !found || got != id {
+						w.r.Count("request_id_differs_from_announcement", 1)
+					}
 					w.applies[id] = list
 					w.openApply = append(w.openApply, id)
 					w.r.Count("register_requests", 1)
@@ -205,7 +214,12 @@ func (w *world) governanceStep() bool {
 			tx := w.c.InvokeTx(utils.RelayerManagerContractAddress, relayer_manager.REMOVE_RELAYER, args, pk.Single(applicant))
 			txs = append(txs, tx)
 			meta = append(meta, func(ok bool, st [][]interface{}) {
-				if id, found := find(st, "putRelayerRemove"); ok && found {
+				if ok { // k-th successful RemoveRelayer request is removal request k
+					id := w.nextRemove
+					w.nextRemove++
+					if got, found := find(st, "putRelayerRemove"); !found || got != id {
+						w.r.Count("request_id_differs_from_announcement", 1)
+					}
 					w.removes[id] = list
 					w.openRemove = append(w.openRemove, id)
 					w.r.Count("remove_requests", 1)
@@ -419,6 +433,7 @@ func TestC36(t *testing.T) {
 	r := kit.Start(t, "C36", "exploration")
 	defer r.Finish()
 	r.Rule("histories of relayer_manager transactions (register / remove requests by users, approvals one validator at a time) committed block by block on a real ledger (up to two removal requests open at once, removal lists in random order that may overlap another open request or name formerly / never registered addresses); after every block a batch of signer sets drawn from 12 shapes (none, user, validator, registered multi-sig, several users, operator multi-sig, other m-of-n of the validators, multi-sig merely containing a member, ...) is submitted to the admission rule; distinct = (shape, registry state of the signers, expected verdict, reason)")
+	r.Assume("request ids are owned by the model: the k-th successful registerRelayer (RemoveRelayer) transaction is register (removal) request k and its address list is what an approval of id k must add (remove); the chain's announcements are only used to learn THAT an approval reached its quorum")
 	r.Assume("a registration / removal is 'approved and committed' when the committed approval transaction announces ApproveRegisterRelayer / ApproveRemoveRelayer for the request id (how many validator approvals that takes is property C32's subject)")
 	r.Assume("permitted consensus addresses = the addresses of the consensus peers of the current governance view plus their operator multi-sig address (validator set fixed at genesis in these histories); the rule is evaluated the way the tx actor does it: updatePermittedAddrMap, then isValidSender")
 	rng := r.Rand("c36")
